@@ -150,7 +150,7 @@ PROPS = {
         "modules": ["CambrianModel.Props.C11"],
         "theorems": ["Cambrian.Props.C11_reject", "Cambrian.Props.C11_rt_json", "Cambrian.Props.C11_rt_value",
                      "Cambrian.Props.C11_init_conf", "Cambrian.Props.C11_same", "Cambrian.Props.C11_before"],
-        "correspondences": ["codec", "ctl"],
+        "correspondences": ["codec", "ctl", "twin"],
         "trusted": CODEC_TRUST + CTL_TRUST,
         "assumptions": ["JSON documents: integers answered by as_i64 are in the i64 range, floats are finite, arrays have at most usize::MAX elements (jvalid, jsized)",
                         "round trip is stated for the model's own field order of map objects (numeric key order); the real serde_json order (string order) is covered by K-codec"],
@@ -185,7 +185,7 @@ PROPS = {
     "C06": {
         "modules": ["CambrianModel.Props.C06"],
         "theorems": ["Cambrian.Props.C06_first", "Cambrian.Props.C06_after_abort_keeps_error"],
-        "correspondences": ["ctl"],
+        "correspondences": ["ctl", "proc"],
         "trusted": CTL_TRUST,
         "assumptions": ["float laws used: none"],
     },
@@ -200,7 +200,7 @@ PROPS = {
     "C05": {
         "modules": ["CambrianModel.Props.C05"],
         "theorems": ["Cambrian.Props.C05_le", "Cambrian.Props.C05_inflight_seeds_nodup", "Cambrian.Props.C05_unique", "Cambrian.Props.C05_exact"],
-        "correspondences": ["ctl", "pop", "run"],
+        "correspondences": ["ctl", "pop", "run", "proc"],
         "trusted": CTL_TRUST,
         "assumptions": ["float laws used: none"],
     },
